@@ -55,3 +55,14 @@ pub fn st_of(m: &[u32]) -> u32 {
 pub fn ca_of(m: &[u32]) -> u32 {
     bits(m, 6, 8)
 }
+
+/// Surveillance status of an airborne position squitter (bits 38-39): N no condition,
+/// P permanent alert, T temporary alert, S SPI.
+pub fn spec_surveillance_status(m: &[u32]) -> char {
+    match bits(m, 38, 39) {
+        0 => 'N',
+        1 => 'P',
+        2 => 'T',
+        _ => 'S',
+    }
+}
